@@ -22,5 +22,16 @@ def main():
             print("(* could not find %s *)" % n); continue
         ty = m.group(1).rstrip()
         ty = re.sub(r"\n\s*\n.*", "", ty, flags=re.S)
-        print("Theorem %s_%s :\n  %s.\nProof. exact %s. Qed.\n" % (pid, n, ty, n))
+        evs = []
+        for m2 in re.finditer(r"\?([A-Za-z_][A-Za-z0-9_]*)", ty):
+            if m2.group(1) not in evs:
+                evs.append(m2.group(1))
+        if evs:
+            # implicit (maximally inserted) type arguments are printed as ?A: quantify them explicitly
+            for e in evs:
+                ty = re.sub(r"\?%s\b" % e, e, ty)
+            ty = "forall %s,\n  %s" % (" ".join("(%s : Type)" % e for e in evs), ty)
+            print("Theorem %s_%s :\n  %s.\nProof. intros %s. exact (@%s %s). Qed.\n" % (pid, n, ty, " ".join(evs), n, " ".join(evs)))
+        else:
+            print("Theorem %s_%s :\n  %s.\nProof. exact %s. Qed.\n" % (pid, n, ty, n))
 main()
